@@ -385,4 +385,37 @@ theorem mapM_ok {α β ε : Type} (f : α → Except ε β) (l : List α) (r : L
         | zero => simpa using hfa
         | succ j => simpa using hel j (by simpa using hi) (by simpa using hr)
 
+/-! ### splitting at several separators -/
+
+theorem splitOn_ne_nil (c : Char) (s : List Char) : splitOn c s ≠ [] := by
+  induction s with
+  | nil => simp [splitOn]
+  | cons x xs ih =>
+    unfold splitOn
+    cases h : splitOn c xs with
+    | nil => simp
+    | cons a b => by_cases hx : (x == c) = true <;> simp [hx]
+
+theorem splitOn_cons (c x : Char) (xs : List Char) :
+    splitOn c (x :: xs) = match splitOn c xs with
+      | [] => [[]]
+      | h :: t => if x == c then [] :: h :: t else (x :: h) :: t := by
+  rw [splitOn]
+  cases splitOn c xs <;> rfl
+
+/-- the text before the first separator is the first piece -/
+theorem splitOn_first (c : Char) (a rest : List Char) (ha : c ∉ a) :
+    splitOn c (a ++ c :: rest) = a :: splitOn c rest := by
+  induction a with
+  | nil =>
+    rw [List.nil_append, splitOn_cons]
+    cases h : splitOn c rest with
+    | nil => exact absurd h (splitOn_ne_nil c rest)
+    | cons p q => simp
+  | cons x xs ih =>
+    simp only [List.mem_cons, not_or] at ha
+    have hx : (x == c) = false := by rw [beq_eq_false_iff_ne]; exact fun hh => ha.1 hh.symm
+    rw [List.cons_append, splitOn_cons, ih ha.2]
+    simp [hx]
+
 end ChemModel.NumFmt
